@@ -134,7 +134,7 @@ func semField(m *cbpMore) *types.Var {
 	if m.procType == nil {
 		return nil
 	}
-	st := m.procType.Underlying().(*types.Struct)
+	st := core.FlatStruct(m.procType)
 	for i := 0; i < st.NumFields(); i++ {
 		if core.TypePkgPath(st.Field(i).Type()) == "golang.org/x/sync/semaphore" {
 			return st.Field(i)
@@ -147,7 +147,7 @@ func wgField(m *cbpMore) *types.Var {
 	if m.procType == nil {
 		return nil
 	}
-	st := m.procType.Underlying().(*types.Struct)
+	st := core.FlatStruct(m.procType)
 	for i := 0; i < st.NumFields(); i++ {
 		if core.TypePkgPath(st.Field(i).Type()) == "sync" && core.TypeName(st.Field(i).Type()) == "WaitGroup" {
 			return st.Field(i)
